@@ -109,6 +109,7 @@ func respPayload(s *spec.Spec, mode, id string) *drv.RespPayload {
 func respCells(tier string) []cells.Cell {
 	var out []cells.Cell
 	out = append(out, cells.HeaderCells()...)
+	out = append(out, cells.HeaderNameCells()...)
 	for _, c := range cells.StatusCells() {
 		if c.Attrs["fam"] == "status" {
 			out = append(out, c)
@@ -131,7 +132,9 @@ func respCells(tier string) []cells.Cell {
 		out = append(out, c)
 	}
 	// several responses per operation, components shared between operations and statuses
-	obj := func() *spec.Schema { return spec.Obj(spec.P("a", spec.T("string")), spec.P("b", spec.TF("integer", "int32"))).Req("a") }
+	obj := func() *spec.Schema {
+		return spec.Obj(spec.P("a", spec.T("string")), spec.P("b", spec.TF("integer", "int32"))).Req("a")
+	}
 	ok := func() []*spec.Response { return []*spec.Response{{Status: "default", Desc: "d"}} }
 	mk := func(name string, build func(s *spec.Spec)) {
 		s := &spec.Spec{}
